@@ -182,6 +182,33 @@ var rkKinds = map[string]string{
 	"numindex":  "local t = {}\nt[4242.25] = 1\nreturn t[4242.25]\n",
 	"numfor":    "local n = 0\nfor i = 4242.25, 4244 do n = n + 1 end\nreturn n\n",
 	"numarg":    "local function id(...) return ... end\nreturn id(4242.25)\n",
+	// wave 5: the table / receiver is a TEMPORARY (call result, field, index, global, string literal,
+	// parenthesised, nested in arguments / return / condition / constructor): once the name is not
+	// RK-encodable it is loaded with LOADK into the register right above the temporary, which for
+	// OP_SELF is R(A+1) - one of the registers the instruction itself writes. The handler must read
+	// its operands before it writes.
+	"self_callrecv":  "local r1, r2 = mk():TGT(7)\nreturn r1, r2\n",
+	"self_fieldrecv": "local r1, r2 = lbox.o:TGT(7)\nreturn r1, r2\n",
+	"self_idxrecv":   "local r1, r2 = lbox[1]:TGT(7)\nreturn r1, r2\n",
+	"self_globrecv":  "local r1, r2 = gobj:TGT(7)\nreturn r1, r2\n",
+	"self_strrecv":   "local r1, r2 = ('abc'):TGT(7)\nreturn r1, r2\n",
+	"self_parenrecv": "local r1, r2 = (obj):TGT(7)\nreturn r1, r2\n",
+	"self_arg":       "local function id(...) return ... end\nreturn id(1, 2, mk():TGT(7))\n",
+	"self_tail":      "return mk():TGT(7)\n",
+	"self_cond":      "if mk():TGT(7) then return 'y', last end\nreturn 'n'\n",
+	"self_ctorval":   "local t = {mk():TGT(7)}\nreturn #t, t[1], t[2]\n",
+	"self_chain":     "return mk():TGT(7):TGT(8)\n",
+	"self_stmt_tmp":  "mk():TGT(7)\nreturn last\n",
+	"fieldget_tmp":   "local f = mk().TGT\nreturn (f(obj, 1))\n",
+	"fieldget_fld":   "local f = lbox.o.TGT\nreturn (f(obj, 1))\n",
+	"fieldget_self":  "local o = obj\no = o.TGT\nreturn (o(obj, 1))\n",
+	"fieldset_tmp":   "mk().TGT = 5\nreturn rawget(obj, 'TGT')\n",
+	"fieldset_fld":   "lbox.o.TGT = 5\nreturn rawget(obj, 'TGT')\n",
+	"fieldset_call":  "local function id(...) return ... end\nobj.TGT = id(3)\nreturn rawget(obj, 'TGT')\n",
+	"fieldset_or":    "local n\nobj.TGT = n or 4\nreturn rawget(obj, 'TGT')\n",
+	"fieldset_multi": "mk().TGT, mk().other = 1, 2\nreturn rawget(obj, 'TGT'), rawget(obj, 'other')\n",
+	"tabkey_call":    "local function id(...) return ... end\nlocal t = {TGT = id(3), [2] = 3}\nreturn t.TGT, t[2]\n",
+	"tabkey_or":      "local n\nlocal t = {TGT = n or 4, [2] = 3}\nreturn t.TGT, t[2]\n",
 }
 
 // rkSrc builds the program whose target constant first appears at constant index idx of the main
@@ -195,6 +222,7 @@ func rkSrc(kind string, idx int) (string, bool) {
 	build := func(pad int) string {
 		var sb strings.Builder
 		sb.WriteString("local z = 0.5\nlast = nil\nlocal obj = setmetatable({}, {__index = function(t, k) return function(self, a) last = k; return k, a end end})\n")
+		sb.WriteString("local function mk() return obj end\nlocal lbox = {o = obj, obj}\ngobj = obj\ngetmetatable('').__index = getmetatable(obj).__index\n")
 		for i := 1; i <= pad; i++ {
 			fmt.Fprintf(&sb, "z = z + %d.5\n", i)
 		}
